@@ -5,7 +5,7 @@
     (The controller's gate for user requests is the Ctl model's half.) *)
 From Coq Require Import List Arith Bool NArith.
 From Jiva Require Import Block.Model Block.Corr Block.Lemmas Block.ProofsWrite Block.ProofsUnit Block.ProofsRead
-     Block.ProofsOps Block.ProofsPreload Block.Refine Block.Proofs.
+     Block.ProofsOps Block.ProofsPreload Block.Refine Block.Proofs Block.OracleProofs.
 Import ListNotations.
 
 Theorem C11_delete_preserves : forall K d name, inv K d ->
@@ -65,6 +65,18 @@ Theorem C11_raw_remove_guarded_refuses_base : forall d name,
   find_name d name (nf d) = 1 -> remove_g true d name = (d, RErr).
 Proof. exact raw_remove_guarded_refuses_base. Qed.
 
+(** The executable statement of C11 on observed traces (the oracle evaluated on the implementation's
+    observations: around every PrepareRemoveDisk / deletion / raw remove / candidate query the live image,
+    the chain and every other retained user-created snapshot are as the property says) holds on every
+    trace of the model whose operations stay inside the specification's domain: no raw fold, no raw
+    remove of a base or middle member, no deletion that merges into a retained user-created snapshot,
+    fresh snapshot names, the checkpoint is not the head. *)
+Theorem C11_oracle_holds_on_model : forall K nb p rv (h : list (op * list bool)), 0 < K ->
+  in_dom K (spec0 (mkcfg K nb p rv)) (map fst h) (trace true K rv (init nb p) h) = true ->
+  c11_oracle (mkcfg K nb p rv) (map fst h) (trace true K rv (init nb p) h) = true.
+Proof. exact c11_oracle_model. Qed.
+
+Print Assumptions C11_oracle_holds_on_model.
 Print Assumptions C11_delete_preserves.
 Print Assumptions C11_delete_refines.
 Print Assumptions C11_protected_refused.
